@@ -324,13 +324,25 @@ def R3b_parser(ctx):
     """C04.R3 RoadClassParser: unknown class name => Err"""
     F = ctx.F
     ctx.rule("C04.R3b", "RoadClassParser::read_query: a class name missing from the mapping is an Err (ok_or_else + `?`/collect into Result)", floor=1)
-    cls = [b for b in F.closures_of(CFG + "road_class::road_class_parser::RoadClassParser::read_query")]
+    import core as _core
     found = False
-    for b in cls:
-        rt = Terms(b).return_term()
-        gets = [c for c in calls_in(rt) if c[1].startswith("std::collections::HashMap::<K, V, S, A>::get")]
-        if gets and calls_in(rt, "ok_or_else"):
-            found = True
+    bad = []
+    for kb in tree_of(F, CFG + "road_class::road_class_parser::RoadClassParser::read_query"):
+        ktm = Terms(kb)
+        for c in kb.calls():
+            if not (c.callee or "").startswith("std::collections::HashMap::<K, V, S, A>::get"):
+                continue
+            recv = clean(ktm.operand(c.args[0], c.bb))
+            if not contains(recv, lambda q: q[0] == "field" and q[2] == "mapping"):
+                continue
+            ct = nosite(ktm.call_term(c.term, c.bb))
+            # the lookup's None becomes an Err: through ok_or(_else) on the way out, or on every path where it is None
+            wrapped = [x for x in subterms(nosite(ktm.return_term())) if x[0] == "call" and re.search(r"Option::<T>::ok_or(_else)?$", x[1].split("{")[0]) and contains(x[2][0], lambda q: q == ct)]
+            if wrapped or _core.none_is_err(kb, c, ktm):
+                found = True
+            else:
+                bad.append(c)
+    found = found and not bad
     ctx.check(found, "unknown-class=>Err", "no closure in read_query turns a failed mapping lookup into an Err", F.need(CFG + "road_class::road_class_parser::RoadClassParser::read_query").where())
 
 
